@@ -16,12 +16,13 @@ RULE = ('grammar-based schemas (<=6 definitions, reference depth <=3, same rule 
         'temporary rules/patterns, multi-option and multi-set constraints, $eq/$eq_type/$isin/$neq) x ALL names of '
         'length 0..4 over the schema literals + fresh component(s); a case = (schema, name); non-trivial = the '
         'reference or the library reports at least one match; distinct = hash(schema text, name)')
-BOUND = 'quick 320 schemas, thorough 6000 schemas; names <= 4 components over <= 6 distinct components'
+BOUND = 'quick 1600 schemas, thorough 40000 schemas; names <= 4 components over <= 6 distinct components'
 
-N_SCHEMAS = {'quick': 320, 'thorough': 6000}
+N_SCHEMAS = {'quick': 1600, 'thorough': 40000}
 
 
 def build(schema):
+    L.cache_lark()
     """compile with the REAL library; returns (checker, loaded checker)."""
     from ndn.app_support.light_versec import compile_lvs, Checker
     text = L.render(schema)
@@ -34,28 +35,48 @@ def build(schema):
 
 # ------------------------------------------------------------------------------------------------- contracts
 
-def post_match(schema, name, expected, got, pseudo, which):
-    """-> list of (key, what)"""
+def post_match(schema, name, expected, got, pseudo, expected_if_repeat_defect=None):
+    """contract of Checker.match against the reference -> list of (key, what)"""
     out = []
-    if got != expected:
+    if got != expected and expected_if_repeat_defect is not None and got == expected_if_repeat_defect:
+        out.append(('C11:temp-constraint-lost-on-repeated-reference',
+                    'model reports %s although the name does not satisfy that rule as written: a rule with a '
+                    'constrained temporary pattern is referenced twice in one name pattern and only the first copy '
+                    'keeps the constraint' % (L.show_set(got - expected)[:2] or L.show_set(expected - got)[:2])))
+    elif got != expected:
         missing = expected - got
         spurious = got - expected
         if missing:
-            out.append(('C11:match-missing:' + which,
-                        'name satisfies %s as written but %s model does not report it' % (L.show_set(missing)[:2], which)))
+            out.append(('C11:match-missing',
+                        'name satisfies %s as written but the model does not report it' % (L.show_set(missing)[:2],)))
         if spurious:
-            out.append(('C11:match-spurious:' + which,
-                        '%s model reports %s although the name does not satisfy that rule as written'
-                        % (which, L.show_set(spurious)[:2])))
+            out.append(('C11:match-spurious',
+                        'model reports %s although the name does not satisfy that rule as written'
+                        % (L.show_set(spurious)[:2],)))
     if pseudo:
-        out.append(('C11:inner-node-reported-as-match:' + which,
-                    '%s model reports a match for pseudo rule(s) %s (an inner tree node: the name is only a proper '
-                    'prefix of some rule) although no rule of the schema is satisfied by that node' % (which, pseudo[:3])))
+        out.append(('C11:inner-node-reported-as-match',
+                    'model reports a match for pseudo rule(s) %s (an inner tree node: the name is only a proper '
+                    'prefix of some rule) although no rule of the schema is satisfied by that name' % (pseudo[:3],)))
     return out
 
 
+def post_loaded(direct, loaded):
+    """the model saved to bytes and loaded again answers like the model used directly"""
+    if direct != loaded:
+        return [('C11:loaded-model-differs', 'after load(save()) match gives %r, directly %r' % (loaded, direct))]
+    return []
+
+
+def observe(ck, name, written):
+    try:
+        got, pseudo = L.lib_match_set(ck, name, written)
+        return ('ok', got, sorted(pseudo))
+    except Exception as e:   # noqa - classified by the caller, never ignored
+        return ('exc', type(e).__name__, repr(e))
+
+
 def run_case(schema, name, checkers=None, ref=None):
-    """evaluate the contract for one (schema, name); -> (list of (key, what), nontrivial)"""
+    """evaluate the contracts for one (schema, name); -> (list of (key, what), nontrivial)"""
     if checkers is None:
         checkers = build(schema)
     if ref is None:
@@ -63,22 +84,21 @@ def run_case(schema, name, checkers=None, ref=None):
     written = {r['id'] for r in schema['rules']}
     expected = ref.match(tuple(name))
     res = []
+    direct = observe(checkers[0], name, written)
+    loaded = observe(checkers[1], name, written)
     nontrivial = bool(expected)
-    for which, ck in (('direct', checkers[0]), ('loaded', checkers[1])):
-        try:
-            got, pseudo = L.lib_match_set(ck, name, written)
-        except IndexError as e:
-            if len(name) == 0:
-                res.append(('C11:empty-name-indexerror:' + which,
-                            'match() of the empty name raises IndexError instead of reporting no match'))
-                continue
-            res.append(('C11:match-raises:' + which, 'match raised %r' % (e,)))
-            continue
-        except Exception as e:   # noqa - any exception from match on a well-formed schema breaks the clause
-            res.append(('C11:match-raises:' + which, 'match raised %r' % (e,)))
-            continue
+    if direct[0] == 'exc':
+        if len(name) == 0 and direct[1] == 'IndexError':
+            res.append(('C11:empty-name-indexerror',
+                        'match() of the empty name raises IndexError instead of reporting no match'))
+        else:
+            res.append(('C11:match-raises', 'match raised %s' % direct[2]))
+    else:
+        _, got, pseudo = direct
         nontrivial = nontrivial or bool(got)
-        res.extend(post_match(schema, name, expected, got, pseudo, which))
+        alt = ref.match(tuple(name), lost_repeat=True) if got != expected else None
+        res.extend(post_match(schema, name, expected, got, pseudo, alt))
+    res.extend(post_loaded(direct, loaded))
     return res, nontrivial
 
 
